@@ -137,7 +137,7 @@ class ScannerBuild:
         self.obj = None
 
 
-def build_scanner(flex, workdir, name, l_text, flex_args, san=True, tsan=False, defines=(), extra_objs=(), cxx=False, link=True):
+def build_scanner(flex, workdir, name, l_text, flex_args, san=True, tsan=False, defines=(), extra_objs=(), cxx=False, link=True, link_cxx=False):
     """flex + cc + link against the driver.  Never raises for scenario-level
     failures: they are reported in the result (flex refusals are legitimate)."""
     r = ScannerBuild()
@@ -157,6 +157,8 @@ def build_scanner(flex, workdir, name, l_text, flex_args, san=True, tsan=False, 
         r.msg = p.stderr[-2000:]
         return r
     flags = ['-O0', '-g', '-w', '-I', HARNESS, '-D_GNU_SOURCE'] + ['-D' + x for x in defines]
+    if cxx:
+        flags += ['-I', os.path.dirname(flex)]    # <FlexLexer.h> of the tree under test
     if tsan:
         flags += ['-fsanitize=thread']
     elif san:
@@ -175,7 +177,7 @@ def build_scanner(flex, workdir, name, l_text, flex_args, san=True, tsan=False, 
     drv = compile_driver(workdir, san=san, tsan=tsan)
     exe = os.path.join(d, name)
     lflags = ['-fsanitize=thread'] if tsan else (SAN_FLAGS if san else [])
-    p = subprocess.run([cc] + lflags + [obj, drv] + list(extra_objs) + ['-o', exe, '-lpthread'],
+    p = subprocess.run([('clang++' if (cxx or link_cxx) else CC)] + lflags + [obj, drv] + list(extra_objs) + ['-o', exe, '-lpthread'],
                        stdout=subprocess.PIPE, stderr=subprocess.STDOUT, text=True, errors='replace')
     if p.returncode != 0:
         r.stage = 'link'
